@@ -601,9 +601,9 @@ func init() {
 		Level: "exploration",
 		Cases: func(tier string) int {
 			if tier == "thorough" {
-				return 12000
+				return 24000
 			}
-			return 1500
+			return 4500
 		},
 		ChunkSize:   50,
 		Rule:        "each case is a PRNG step script over a harness-controlled read loop (every ReadSlices invocation is granted explicitly): the reference broker sends messages at the three levels (some beyond the read buffer), the application pauses after each return while 0-3 concurrent outbound requests (Publish, Ping, Subscribe, persisted publish) use the connection, the connection is broken, the acknowledgement's own write is accepted and lost, the client is restarted on the same Persistence. Oracle: each PUBACK/PUBREC on any connection follows a return of that identifier AND the next ReadSlices invocation after it; every returned QoS 1/2 message is acknowledged on some connection by idle. Non-trivial: a pause (return followed by a later invocation) with the acknowledgement observed after it; distinct by counts of competing requests, breaks, lost acknowledgements, restarts, big messages.",
@@ -640,9 +640,9 @@ func init() {
 		Level: "fault_enumeration",
 		Cases: func(tier string) int {
 			if tier == "thorough" {
-				return 12000
+				return 24000
 			}
-			return 1500
+			return 4500
 		},
 		ChunkSize:   50,
 		Rule:        "PRNG step scripts as in C07 restricted to QoS 2 (with some QoS 0/1 noise): the reference broker is the sender with its own retransmission state (DUP PUBLISH of everything unacknowledged after each reconnect, PUBREL repeats, identifier reuse after PUBCOMP, messages beyond the read buffer), the client's PUBREC/PUBCOMP get accepted and lost with the connection, connections break at step boundaries, the client is stopped and AdoptSession continues on the same Persistence (between delivery and ownership, and after ownership), transient marker Save/Delete/Load errors (never a stop while such an error is unrecovered: the documented BUG). Oracle: a QoS 2 message is returned at most once per client generation and, across a restart, not again once its marker Save completed until PUBREL ended the cycle; every message is returned at least once; at idle the broker's handshake table is empty (every PUBLISH, duplicate or not, got its PUBREC, every PUBREL its PUBCOMP). Non-trivial: the broker retransmitted at least one PUBLISH or PUBREL; distinct by breaks, lost acknowledgements, restarts, store errors, buffer size.",
